@@ -94,4 +94,12 @@ typedef uint64_t elem_t;      /* opaque element token for templates that only mo
 		__CPROVER_ensures((gh_f_##V < n && gh_f_##V < __CPROVER_old(v->size)) ==> v->data[gh_f_##V < CAP ? gh_f_##V : 0] == __CPROVER_old(v->data[gh_f_##V < CAP ? gh_f_##V : 0]));
 #endif
 
+/* whole-vector copy assignment: bounded runs execute the element loop (contract runs bring their own witness-form stub) */
+#ifdef SHIM_IMPL
+#define VEC_SHIMS_ASSIGN(V, T)                                                                                   \
+	static inline void V##_assign(V *d, V *s) { for (size_t k_ = 0; k_ < s->size; k_++) d->data[k_] = s->data[k_]; d->size = s->size; }
+#else
+#define VEC_SHIMS_ASSIGN(V, T)
+#endif
+
 #endif
